@@ -259,7 +259,7 @@ def report(prop, spec, tier, seed, results, extra, t0, common):
         'dropped_statements': dropped,
         'known_findings_hit': [k.get('id') for k, _ in known_hit],
         'samples': samples or [{'note': 'no solver-discharged obligation in this run'}],
-        'explanation': spec.get('explanation', ''),
+        'explanation': spec.get('explanation') or (spec.get('claim', '') + '  ||  LIMITS: ' + spec.get('level_note', '')),
         'not_claimed': spec.get('not_claimed', []),
     }
     ev = {'property_id': prop, 'tier': tier, 'seed': seed, 'level': level, 'coverage': cov,
